@@ -803,6 +803,43 @@ func checkInvalidHandling(c *Ctx, rule string, lay *layoutOracle) {
 				c.Check(good, rule, fmt.Sprintf("marker-test(%s %s)", key, fv.Name()), ins.Pos(), fmt.Sprintf("%s is tested only for (in)equality with its invalid marker %d", fv.Name(), want),
 					fmt.Sprintf("%s compares %s with %d using %s: only the single value %d marks an invalid field, every other value is valid data", key, fv.Name(), k, bo.Op, want))
 			})
+			// a fine-invalid test concerns the delta that the function goes on to use: a test of another
+			// field's marker (the fine range inside the phase formula) drops a valid fine value
+			{
+				tested := map[*types.Var]token.Pos{}
+				used := map[*types.Var]bool{}
+				eachInstr(fn, func(ins ssa.Instruction) {
+					ld, ok := ins.(*ssa.UnOp)
+					if !ok || ld.Op != token.MUL {
+						return
+					}
+					fv, base := loadedField(ld)
+					if fv == nil || !strings.HasSuffix(fv.Name(), "Delta") {
+						return
+					}
+					if bf, _ := loadedField(base); bf != nil {
+						return
+					}
+					for _, r := range referrers(ld) {
+						if bo, ok := r.(*ssa.BinOp); ok && (bo.Op == token.EQL || bo.Op == token.NEQ) {
+							if _, isC := constInt(bo.Y); isC {
+								tested[fv] = bo.Pos()
+								continue
+							}
+							if _, isC := constInt(bo.X); isC {
+								tested[fv] = bo.Pos()
+								continue
+							}
+						}
+						used[fv] = true
+					}
+				})
+				for fv, pos := range tested {
+					c.Check(used[fv], rule, fmt.Sprintf("fine-test-own-delta(%s %s)", key, fv.Name()), pos,
+						"the fine value tested for its invalid marker is the one the formula uses",
+						fmt.Sprintf("%s tests %s for its invalid marker but does not use that field: a valid fine value of the formula's own field is dropped when another field is invalid", key, fv.Name()))
+				}
+			}
 			// branches on a fine-invalid test must not skip the computation: both arms reach the scaled-value call
 			eachInstr(fn, func(ins ssa.Instruction) {
 				ifi, ok := ins.(*ssa.If)
